@@ -170,7 +170,7 @@ func startHTTP() {
 				t := r.Context().Value(runKey{}).(*tagged)
 				u := ws.HTTPUpgrader{Protocol: protoSelector(t.cfg.ProtoSel, t.cfg.Protocols...)}
 				switch t.cfg.ExtSel {
-				case "nil":
+				case "nil", "custom-reversed": // (HTTPUpgrader has no ExtensionCustom)
 				case "extension-all":
 					u.Extension = func(httphead.Option) bool { return true }
 				case "extension-none":
@@ -231,6 +231,16 @@ func runPair(c *mon.C, cfg pairCfg) bool {
 				u.Extension = func(httphead.Option) bool { return true }
 			case "extension-none":
 				u.Extension = func(httphead.Option) bool { return false }
+			case "custom-reversed":
+				// a server that lists the extensions it accepts in an order of its own (the last offered first):
+				// the order of an answer is the server's business, both peers report the same list
+				u.ExtensionCustom = func(v []byte, sel []httphead.Option) ([]httphead.Option, bool) {
+					opts, ok := httphead.ParseOptions(append([]byte(nil), v...), nil)
+					for i := len(opts) - 1; i >= 0; i-- {
+						sel = append(sel, opts[i])
+					}
+					return sel, ok
+				}
 			default:
 				u.Negotiate = negotiator(cfg.ExtSel)
 			}
@@ -321,7 +331,7 @@ var (
 	protoSels  = []string{"nil", "none", "all", "slice", "exact-last", "exact-second"}
 	extOffers  = [][]string{nil, {"permessage-deflate; client_max_window_bits; server_no_context_takeover"}, {"permessage-deflate", "permessage-deflate; server_max_window_bits=10"}, {"x-unknown; p=1", "permessage-deflate; client_no_context_takeover"},
 		{"x-a; p=1", "x-bb; q=22; r", "permessage-deflate", "x-cccc; s=\"t u\"", "x-d"}}
-	extSels = []string{"nil", "extension-all", "extension-none", "negotiate-accept", "negotiate-decline", "negotiate-error", "negotiate-wsflate", "negotiate-bare", "negotiate-first-param", "negotiate-own-params"}
+	extSels = []string{"nil", "extension-all", "extension-none", "negotiate-accept", "negotiate-decline", "negotiate-error", "negotiate-wsflate", "negotiate-bare", "negotiate-first-param", "negotiate-own-params", "custom-reversed"}
 	bufs    = []int{0, 16, 17, 64, 256, 4096}
 )
 
